@@ -14,7 +14,9 @@ import (
 	"encoding/json"
 	"fmt"
 	"image"
+	"math"
 	"os"
+	"regexp"
 	"sort"
 	"strconv"
 	"strings"
@@ -34,6 +36,9 @@ func run(c *hc.Ctx) {
 	}
 	if c.Only == "" || c.Only == "txt" {
 		genTXT(c, 2*n)
+	}
+	if c.Only == "" || c.Only == "num" {
+		genNUM(c, 3*n)
 	}
 	if c.Only == "" || c.Only == "parse" {
 		genPARSE(c, 2*n)
@@ -228,6 +233,53 @@ func genTXT(c *hc.Ctx, n int) {
 			}
 			c.Fail(kind, fmt.Sprintf("title %q is stored as %q which reads back as %q", string(rs), raw, string(back)),
 				map[string]any{"title": string(rs), "title_runes": runesTok(rs), "stored_hex": hx(raw)})
+		}
+	}
+}
+
+// ---------------------------------------------------------------------------------------------
+// NUM: everything the writer prints for a finite float64 has the shape -?d*(.d+)? (hypothesis of
+// C13.printed_number_wf / value_roundtrip, discharged on the real printer `dec`)
+
+var numShape = regexp.MustCompile(`^-?[0-9]*(\.[0-9]+)?$`)
+
+func genNUM(c *hc.Ctx, n int) {
+	for it := 0; it < n; it++ {
+		var f float64
+		switch c.Intn(6) {
+		case 0:
+			f = floatPool[c.Intn(len(floatPool))]
+		case 1:
+			f = math.Float64frombits(c.U64()) // any bit pattern
+			if math.IsNaN(f) || math.IsInf(f, 0) {
+				f = 0
+			}
+		case 2:
+			f = c.Range(-1, 1) * math.Pow(10, float64(c.Intn(40)-20))
+		case 3:
+			f = float64(int64(c.U64()>>uint(c.Intn(64)))) * []float64{1, -1}[c.Intn(2)]
+		case 4:
+			f = float64(c.Intn(2000)-1000) / float64(1+c.Intn(1000))
+		default:
+			f = []float64{0, math.Copysign(0, -1), 1e-9, -1e-9, 5e-9, 4.9e-9, math.MaxFloat64, -math.MaxFloat64, math.SmallestNonzeroFloat64, 2147483647, 2147483648, -2147483648, -2147483649, 0.99999999999, 1e8, 123456789.123456789}[c.Intn(16)]
+		}
+		p := pdf.VerifDec(f)
+		ok := numShape.MatchString(p) && strings.ContainsAny(p, "0123456789")
+		c.Case("NUM "+hx([]byte(p)), "=", hc.B(ok))
+		c.Evals++
+		c.Distinct(p)
+		switch {
+		case strings.Contains(p, ".") && strings.HasPrefix(strings.TrimPrefix(p, "-"), "."):
+			c.Count("num:.frac")
+		case strings.Contains(p, "."):
+			c.Count("num:int.frac")
+		case len(p) > 12:
+			c.Count("num:long-int")
+		default:
+			c.Count("num:int")
+		}
+		if !ok {
+			c.Fail("number:not-decimal", fmt.Sprintf("dec(%v) prints %q which is not a PDF number", f, p), map[string]any{"float_bits": hc.H(f), "printed": p})
 		}
 	}
 }
@@ -698,6 +750,19 @@ func histAttempt(c *hc.Ctx) bool {
 	imgSeen := map[int]bool{}
 	imgs := histImages(c)
 	withFonts := c.Chance(0.5)
+	// whole-font embedding (SetFontSubsetting(false)): writeFont then writes a CIDToGIDMap object between
+	// the font program and the late font dictionary. Only with the (small) CFF fonts, to keep lines short.
+	noSubset := withFonts && c.Chance(0.15)
+	if noSubset {
+		w.SetFontSubsetting(false)
+		c.Count("hist:nosubset")
+	}
+	fontID := func() int {
+		if noSubset {
+			return 2 + c.Intn(2)
+		}
+		return c.Intn(len(histFonts))
+	}
 	withPanics := c.Chance(0.08)
 	nops := 2 + c.Intn(24)
 	panicked := ""
@@ -749,7 +814,7 @@ func histAttempt(c *hc.Ctx) bool {
 			ops = append(ops, toks...)
 			c.Count("hist:op-writeobject")
 		case k == 6 && withFonts:
-			id := c.Intn(len(histFonts))
+			id := fontID()
 			vert := c.Chance(0.3)
 			ref := w.GetFont(histFonts[id], vert)
 			if !seenRef[ref] {
@@ -890,7 +955,7 @@ func histAttempt(c *hc.Ctx) bool {
 					inText = true
 					c.Count("hist:op-BT")
 				}
-				id := c.Intn(len(histFonts))
+				id := fontID()
 				size := []float64{12, 10.5, 12, 8}[c.Intn(4)]
 				vert := c.Chance(0.25)
 				before := len(w.Offsets())
@@ -1079,17 +1144,11 @@ func judgeTable(c *hc.Ctx, out []byte, offs []int, ops []string) {
 func genDOC(c *hc.Ctx, n int) {
 	for it := 0; it < n; it++ {
 		avoid := map[string]bool{}
-		// large explicit strokes make documents of 100 kB and more: keep them rare
+		// explicit strokes of curved paths make documents of 100 kB and more (and reach the recorded
+		// ellipse-split panic of the path code): keep them rare. All other former defect classes
+		// (EvenOdd strokes, stitched gradients, alpha-0 colours, CR in metadata) are repaired and generated freely.
 		if !c.Chance(0.15) {
 			avoid["stroke-explicit-curves"] = true
-		}
-		if c.Tier == "search" || c.Chance(0.5) {
-			// half of the documents are free of the recorded defect classes so that they are read to the end
-			for _, k := range DocAvoid {
-				if k != "stroke-explicit-curves" {
-					avoid[k] = true
-				}
-			}
 		}
 		r := GenDoc(c, avoid)
 		if !r.Subset && c.Tier == "quick" && c.Chance(0.7) {
